@@ -13,6 +13,21 @@ CLAIMED = {
                   "cannot cover, while the code is a short straight-line driver around one compression call.",
              ref="DESIGN.md 5/C12",
              technique="Kani->CBMC bounded model checking with a BLAKE2b-compress transcript stub; counterexamples replayed natively against libsodium"),
+ "C14": dict(text="Bounded model checking of the real src/protected.rs against a ghost kernel (POSIX mprotect/mlock/munlock/posix_memalign/free semantics, 4-byte page): one harness per typed operation sequence "
+                  "(constructor x length x ops up to the stated depth, then drop) with symbolic contents; after every step the ghost page table must show exactly the type's rights on every data page, "
+                  "lock state == type, PROT_NONE guard pages before the data and at the end of the block, contents unchanged; after the last drop nothing is locked, every block is freed with all pages RW. "
+                  "A separate harness family checks the allocator's block geometry per layout size. Right level: the observable is the kernel's page table, which tests cannot enumerate over lengths/sequences, "
+                  "while each sequence is a small loop-free program.",
+             ref="DESIGN.md 5/C14, 3.3",
+             technique="Kani->CBMC bounded model checking against a ghost-kernel model of libc; counterexamples replayed natively via /proc/self/smaps"),
+ "C15": dict(text="Same harness family as C14 plus unprotected HeapBytes/HeapByteArray life cycles: the ghost free() scans the whole block (zero-filled at allocation) and any non-zero byte is a violation; "
+                  "secrets are symbolic bytes; sequences include grow (realloc), shrink (truncate), clone+drop, locked resize-by-copy, write.",
+             ref="DESIGN.md 5/C15",
+             technique="Kani->CBMC bounded model checking with a ghost allocator whose free() asserts the block is zero; replay with an LD_PRELOAD free() interposer"),
+ "C19": dict(text="Same harness family with the ghost mlock refusing from the k-th call on (k literal per instance, one per lock request of the program; contents symbolic): every Result-returning constructor/transition "
+                  "must return Err (Kani proves no panic/abort reachable), Err only when the OS refused, and after dropping everything the C14/C15 end-state predicates hold.",
+             ref="DESIGN.md 5/C19",
+             technique="Kani->CBMC bounded model checking with a fault-injecting ghost mlock; replay with an LD_PRELOAD mlock interposer"),
 }
 NA = {
  "C18": "Backends in question are assembly (sha2/asm), run-time-selected vendor intrinsics (dalek AVX2) and std::simd; none has a MIR/GOTO encoding Kani accepts and the two BLAKE2b compress variants are mutually exclusive cfg alternatives; see DESIGN.md section 6.",
